@@ -423,7 +423,7 @@ func (x *Exec) indexAddr(st *State, fr *Frame, in *ssa.IndexAddr) Val {
 	case *types.Slice:
 		s := xv.(Term).S
 		x.safety(st, fr, "index", in, 0, and(app("<=", "0", iv.S), app("<", iv.S, app("s_len", s))), "slice index in range")
-		return &Place{Kind: pkElem, Ref: x.define(st, "arr", "Int", app("s_arr", s)), Idx: x.define(st, "ix", "Int", app("+", app("s_off", s), iv.S)), Base: u.Elem(), T: u.Elem()}
+		return &Place{Kind: pkElem, Ref: x.define(st, "arr", "Int", app("s_arr", s)), Idx: x.define(st, "ix", "Int", app("at", app("s_off", s), iv.S)), Base: u.Elem(), T: u.Elem()}
 	case *types.Pointer: // pointer to array
 		at := u.Elem().Underlying().(*types.Array)
 		p := x.asPlace(xv, in.X.Type())
